@@ -984,4 +984,4 @@ def run(rep, tier):
                        'get_unchecked(n..) (n <= len) and read_unaligned::<u64> (len >= 8) hold at all unsafe call sites, and they establish: remaining length <= initial length, returned count = '
                        'len - len\', 0 <= exp <= 10*(0x1000000-1)+9. str_to_dec and from_str are then interpreted with these summaries: every path returns (no overflow of usize / isize arithmetic, '
                        'casts in range).')
-    rep.trust('rustc nightly MIR; absint incl. its loop generalisation; slice / pointer models (only lengths are tracked)')
+    rep.trust('rustc nightly MIR; absint incl. its loop generalisation and loop hooks; slice / pointer models (lengths; for the value / grammar / scanner clauses one atom per byte position and 8-byte reads as byte lanes); the DFA of the literal grammar; fold algebra (step by step = whole numeral)')
